@@ -584,6 +584,68 @@ def rule_r11(chk, rid="C03-R11"):
                "with the same slot of the other store", km.loc(g), sure=True)
 
 
+def rule_r14(chk, rid="C03-R14"):
+    chk.rule(rid, "the prior mean of the state: the stable block solves alpha_s = Ta_s alpha_s + Ka_s (the stable submatrices only) and sits in the "
+             "LAST num_stable slots of alpha, after num_unit_roots zeros for the unit-root elements - _initialize_med evaluated finitely with "
+             "symbolic matrices (2 unit roots, 3 stable elements)", floor=1, shape_independent=True)
+    from .. import fin
+    im = chk.repo.mod("irispie.fords.initializers")
+    f = im.func("_initialize_med")
+    chk.saw(im, "_initialize_med")
+
+    class _M(fin.FinObj):
+        def __init__(self, label):
+            super().__init__(label=label)
+        def __sub__(self, o):
+            return _M(f"({self.label} - {o.label})")
+        def __repr__(self):
+            return self.label
+
+    class _Solved(fin.FinObj):
+        def __init__(self, T, K, n):
+            super().__init__(what=f"solve({T!r}, {K!r})", n=n)
+        def __iter__(self):
+            return iter([f"{self.what}[{i}]" for i in range(self.n)])
+        def __len__(self):
+            return self.n
+        def __getitem__(self, k):
+            return list(self)[k]
+        def __setitem__(self, k, v):
+            raise fin.NotFinite("in-place edit of the solved vector")
+    class _NpList(list):
+        """1-D array: a scalar assigned to a slice is broadcast, a vector must fit"""
+        def __setitem__(self, k, v):
+            if isinstance(k, slice):
+                idx = range(*k.indices(len(self)))
+                vals = list(v) if isinstance(v, (list, tuple)) else [v] * len(idx)
+                if len(vals) != len(idx):
+                    raise fin.Raised("could not broadcast input array")
+                for i_, x_ in zip(idx, vals):
+                    list.__setitem__(self, i_, x_)
+            else:
+                list.__setitem__(self, k, v)
+    NU, NS = 2, 3
+    sol = fin.FinObj(num_alpha=NU + NS, num_unit_roots=NU, num_stable=NS, Ta_stable=_M("Ta_s"), Ka_stable=_M("Ka_s"), Pa_stable=_M("Pa_s"),
+                     Ta=_M("Ta"), Ka=_M("Ka"), Pa=_M("Pa"))
+    sizes = {"Ta_s": NS, "Ka_s": NS, "Ta": NU + NS, "Ka": NU + NS}
+    def left_div(T, K):
+        n = sizes.get(K.label)
+        if n is None:
+            raise fin.NotFinite("left_div of something else")
+        return _NpList(_Solved(T, K, n))
+    funcs = {"_np.zeros": lambda shape, **kw: _NpList([0] * (shape[0] if isinstance(shape, tuple) else shape)), "_np.eye": lambda n, **kw: _M(f"I{n}"),
+             "left_div": left_div, "_np.linalg.solve": left_div, "_np.concatenate": lambda parts, **kw: [x for p_ in parts for x in p_],
+             "_np.hstack": lambda parts, **kw: [x for p_ in parts for x in p_]}
+    try:
+        got = list(fin.run_function(f, {params(f)[0]: sol}, funcs))
+    except (fin.NotFinite, fin.Raised, TypeError, AttributeError, IndexError) as ex:
+        chk.undecided(rid, "fords.initializers._initialize_med", f"not finitely evaluable: {type(ex).__name__}: {ex}", im.loc(f))
+        return
+    want = [0] * NU + [f"solve((I{NS} - Ta_s), Ka_s)[{i}]" for i in range(NS)]
+    chk.ob(rid, "fords.initializers._initialize_med", got == want, "alpha = (0, 0, solve(I - Ta_s, Ka_s)): unit-root elements zero, stable block behind them" if got == want else
+           f"with 2 unit roots and 3 stable elements the prior mean is {got}, expected {want}", im.loc(f), sure=True)
+
+
 def _output_store_slots(km):
     from .. import fin
     for n in ast.walk(km.tree):
@@ -601,6 +663,7 @@ def _output_store_slots(km):
 
 
 def run(chk):
+    chk.guard(rule_r14, chk)
     chk.guard(rule_r11, chk)
     chk.guard(rule_r1_r2, chk)
     chk.guard(rule_r7, chk)
